@@ -33,6 +33,11 @@ Apply(mem, op) ==
                             ELSE [mem |-> [mem EXCEPT ![op.c] = InsertAt(xs, op.i, op.v)], res |-> RN]
       [] op.k = "remove" -> IF op.i >= Len(xs) THEN [mem |-> mem, res |-> RE]
                             ELSE [mem |-> [mem EXCEPT ![op.c] = RemoveAt(xs, op.i)], res |-> RI(xs[op.i + 1])]
+      [] op.k = "removeval" ->      \* remove the entry with this value (how a map removes a key), return it; null if absent
+            (LET H == {i \in 1 .. Len(xs) : xs[i] = op.v} IN
+             IF H = {} THEN [mem |-> mem, res |-> RN]
+             ELSE LET i == CHOOSE i \in H : \A j \in H : i <= j IN
+                  [mem |-> [mem EXCEPT ![op.c] = RemoveAt(xs, i - 1)], res |-> RI(op.v)])
       [] op.k = "extend" -> [mem |-> [mem EXCEPT ![op.c] = xs \o mem[op.d]], res |-> RN]
       [] op.k = "swap"   -> [mem |-> [mem EXCEPT ![op.c] = mem[op.d], ![op.d] = xs], res |-> RN]
 
